@@ -69,7 +69,37 @@ def nt_c11(tr):
 
 import custom_checks as cc  # noqa: E402
 
+
+def nt_c01(tr):
+    # at least two client tasks submitted to one actor, through both the waiting and the non-waiting path
+    clients = {e[2] for e in tr if e[0] == 5 and e[4] in (0, 1, 2)}
+    kinds = {e[4] for e in tr if e[0] == 5 and e[4] in (0, 1, 2)}
+    return len(clients) >= 2 and 0 in kinds and (1 in kinds or 2 in kinds) and sum(1 for e in tr if e[0] == 8) >= 3
+
+
+def nt_c06(tr):
+    # an actor's task ended by failure (failed start, panic, fatal timeout, cancellation) while operations, timers or children were around
+    failed = {e[1] for e in tr if e[0] == 14 and e[2] != 0} | {e[1] for e in tr if e[0] == 13 and e[3] in (1, 2, 3)} | {e[1] for e in tr if e[0] == 9 and e[3] in (1, 2)}
+    return bool(failed) and (has(tr, 5) or has(tr, 22) or has(tr, 31))
+
+
 PROPS = {
+    "C06": {
+        "families": [("faults", 1200, 30000), ("children", 400, 10000)],
+        "monitors": ["C03", "C14"],
+        "theorems": ["C06_containment", "C06_dead_is_silent", "C06_seen_as_stopped"],
+        "nontrivial": nt_c06,
+        "rule": "cases generated from (family, VERIF_SEED, index): every fault kind (failed or panicking started, panic in a handler or in stopped, fatal timeout, cancellation of the loop task after its n-th poll) at random positions in programs with pending callers, timers, children and bystander handles; non-trivial = an actor's task ended by a failure while client operations, timers or children existed; distinct = distinct case JSON",
+        "assumptions": ["F7 (a service whose started fails panics the caller of from_registry in debug builds) is avoided by the generators and recorded as a known finding"],
+    },
+    "C01": {
+        "families": [("mailbox", 900, 25000), ("backpressure", 400, 10000)],
+        "monitors": ["C03"],
+        "theorems": ["C01_mailbox_discipline", "C01_handler_takes_head", "C01_queued_at_most_once", "C01_no_overlap"],
+        "nontrivial": nt_c01,
+        "rule": "cases generated from (family, VERIF_SEED, index): 1-4 client tasks, send/call/ping/force through Addr, OwningAddr, Sender, Caller, WeakSender, WeakCaller obtained by conversion chains, mailbox unbounded or bounded(0..4), handlers with and without sleeps, timers as background traffic, random schedules; non-trivial = at least two client tasks submitted to the actor through both the waiting and the non-waiting path and at least three messages were handled; distinct = distinct case JSON",
+        "assumptions": ["'handled' = handler invocation began", "real-time order between submissions (Ret before Op) is taken from the order of events on the single-threaded executor"],
+    },
     "C18": {
         "custom": cc.run_c18, "pre": [cc.pre_c18], "families": [], "monitors": [],
         "theorems": ["C18_entry_survives", "C18_rt_independent"],
@@ -138,6 +168,23 @@ COMMON_NOTE = ("Trusted: Coq kernel; the hand-written model's fidelity (checked 
                "No axioms. Real-thread races inside external crates and real wake-ups beyond the sampled cases are outside.")
 
 MANIFEST_TEXT = {
+    "C06": {
+        "text": "Theorem C06_containment (Coq, for every state and every way a task can end): the end of an actor's task closes and empties its mailbox with nobody left parked, resolves its notifier (never with the actor value on a failure), aborts all its timers, "
+                "removes all child handles it held, and leaves every other actor's loop state, mailbox and timers untouched; C06_dead_is_silent and C06_seen_as_stopped (corollaries of the C03 / C14 simulations). "
+                "[partial] 'every pending and future operation resolves with an error' is enforced by model rules (slot cancellation, immediate errors on a closed mailbox, the progress check at quiescence) and validated by correspondence + search acceptor.",
+        "note": COMMON_NOTE,
+        "technique": "Rocq/Coq proof (one-step theorem over all states + simulations) over an executable model; correspondence by differential run of model and implementation under fault injection",
+        "design_ref": "DESIGN.md section 6 C06",
+    },
+    "C01": {
+        "text": "Theorems (Coq): C01_mailbox_discipline (every step changes every queue only by append-at-tail of a fresh id / remove-head / drop), C01_handler_takes_head, "
+                "C01_queued_at_most_once (NoDup of queued ids in every reachable state), C01_no_overlap (lifecycle automaton). Together: FIFO, sequential, at-most-once, for both submission paths and all handle kinds "
+                "(the model has one queue per actor). [partial] the real-time-order clause as a trace statement and 'state = sequential fold' are enforced by the model's rules (call responses and join values are compared with the model's state) "
+                "and checked on every implementation trace by correspondence and by the search acceptor, not stated as separate theorems.",
+        "note": COMMON_NOTE,
+        "technique": "Rocq/Coq proof (invariants over all reachable states + one-step characterisation) over an executable model; correspondence by differential run of model and implementation",
+        "design_ref": "DESIGN.md section 6 C01",
+    },
     "C18": {
         "text": "Theorems C18_entry_survives / C18_rt_independent (Coq, by computation over two tables regenerated from the source on every run: what each of the 12 spawn entry points does with the task handle, "
                 "what dropping the handle does on each runtime's spawner): every entry point yields a surviving actor on every runtime. The tables' claim about the runtimes is validated on every run by executing 72 "
